@@ -378,6 +378,9 @@ fn r_ns(o: &str, t: &str) -> LRec {
 fn r_cname(o: &str, t: &str) -> LRec {
     rec(o, ZoneRecordData::Cname(Cname::new(lname(&nm(t)))))
 }
+fn r_dname(o: &str, t: &str) -> LRec {
+    rec(o, ZoneRecordData::Dname(domain::rdata::Dname::new(lname(&nm(t)))))
+}
 fn r_mx(o: &str, t: &str) -> LRec {
     rec(o, ZoneRecordData::Mx(Mx::new(10, lname(&nm(t)))))
 }
@@ -587,6 +590,8 @@ struct Hier {
     decoy: bool,
     /// per zone (root, tld., zone.tld.): DNSKEY RDATA in zone-file text and in wire form
     key_texts: Vec<(String, Vec<u8>)>,
+    /// the zones carry the records of the redirect dimension
+    redirect: bool,
 }
 
 #[derive(Clone)]
@@ -609,6 +614,10 @@ struct Spec {
     /// a second key K2 of the root: the root's DNSKEY RRset is {K2, K1} and carries a signature of K2
     /// ONLY (K2 = key-signing key); the root's data stays signed by K1
     root_ksk: Option<(Arc<SKey>, Vec<u8>)>,
+    /// the redirect dimension: zone.tld. and tld. carry DNAMEs at owners with and without other data, DNAME
+    /// targets in the same zone / the parent zone / the child zone, DNAME->DNAME, CNAME->DNAME, DNAME->CNAME
+    /// and CNAME chains that end in NXDOMAIN (see `build_hier`)
+    redirect: bool,
 }
 
 /// A fresh ECDSAP256SHA256 key for `apex`.
@@ -620,7 +629,7 @@ fn gen_key(apex: &str) -> (Arc<SKey>, Vec<u8>) {
 }
 
 fn build_hier(spec: Spec, now: u32) -> Hier {
-    let Spec { name, kind, nsec3, opt_out, decoy, extra, zone_denial, records_changed, zsk, root_ksk } = spec;
+    let Spec { name, kind, nsec3, opt_out, decoy, extra, zone_denial, records_changed, zsk, root_ksk, redirect } = spec;
     let (k_root, rd_root, ta) = load_key("008+60616", &nm("."));
     let (k_tld, rd_tld, ta_tld) = load_key("010+46731", &nm("tld."));
     let (k_zone, rd_zone, ta_zone) = load_key("013+42253", &nm("zone.tld."));
@@ -672,6 +681,31 @@ fn build_hier(spec: Spec, now: u32) -> Hier {
         r_cname("c3.zone.tld.", "c2.zone.tld."),
         rec("d.zone.tld.", ZoneRecordData::Dname(domain::rdata::Dname::new(lname(&nm("w.zone.tld."))))),
     ];
+    if redirect {
+        zone.extend(vec![
+            // a DNAME at an owner that also has address data; target in the same zone
+            r_a("dn.zone.tld.", 30),
+            r_dname("dn.zone.tld.", "rt.zone.tld."),
+            r_txt("rt.zone.tld.", "rt"),
+            r_a("www.rt.zone.tld.", 31),
+            // DNAME -> CNAME
+            r_cname("cn.rt.zone.tld.", "www.zone.tld."),
+            // DNAME -> DNAME
+            r_dname("d2.zone.tld.", "dn.zone.tld."),
+            // a DNAME whose target is (the apex of) another signed zone, the parent
+            r_dname("up.zone.tld.", "tld."),
+            r_txt("up.zone.tld.", "up"),
+            // CNAME -> DNAME -> data; CNAME -> the owner of a DNAME itself
+            r_cname("cd.zone.tld.", "www.dn.zone.tld."),
+            r_cname("co.zone.tld.", "dn.zone.tld."),
+            // CNAME chains of length 1 and 2 that end at a name that does not exist
+            r_cname("cx1.zone.tld.", "nx.zone.tld."),
+            r_cname("cx2.zone.tld.", "cx1.zone.tld."),
+        ]);
+        // a DNAME in tld. into the child zone: another signed zone, or (insecure child) an insecure one
+        tld.push(r_dname("dz.tld.", "zone.tld."));
+        tld.push(r_txt("dz.tld.", "dz"));
+    }
     if records_changed {
         zone.push(r_a("nx.zone.tld.", 50));
         zone.push(r_txt("www.zone.tld.", "now it has one"));
@@ -755,6 +789,7 @@ fn build_hier(spec: Spec, now: u32) -> Hier {
         forged,
         decoy,
         key_texts,
+        redirect,
     };
     h.sanity();
     h
@@ -1005,13 +1040,38 @@ impl Resp {
 impl Hier {
     /// The deterministic upstream: authentic answer for (qname, qtype).
     fn answer(&self, qname: &Labels, qtype: u16) -> Resp {
-        let mut r = Resp::new(qname, qtype);
+        self.answer_n(qname, qtype, usize::MAX)
+    }
+
+    /// The names SNAME takes in the authentic resolution of (qname, qtype): n_0 = qname, every name a
+    /// CNAME / DNAME leads to, up to the name n_k the final answer or denial is about; with what the
+    /// authentic hierarchy says about each.
+    fn chain(&self, qname: &Labels, qtype: u16) -> Vec<(Labels, Truth)> {
+        let mut v = vec![];
         let mut name = qname.clone();
         for _ in 0..8 {
             let t = self.classify(&name, qtype);
+            v.push((name.clone(), t.clone()));
+            match t {
+                Truth::Cname { target, .. } | Truth::Dname { target, .. } => name = target,
+                _ => break,
+            }
+        }
+        v
+    }
+
+    /// The authentic answer, cut after `links` redirections: the records of the first `links` CNAME /
+    /// DNAME links and nothing about the name the last of them leads to.
+    fn answer_n(&self, qname: &Labels, qtype: u16, links: usize) -> Resp {
+        let mut r = Resp::new(qname, qtype);
+        let mut name = qname.clone();
+        for step in 0..8 {
+            if step == links {
+                return r;
+            }
+            let t = self.classify(&name, qtype);
             let zi = t.zone();
             let z = &self.zones[zi];
-            let apexk = key(&z.apex);
             match t {
                 Truth::Pos { src, wildcard, ce, .. } => {
                     r.push_set(self, 0, zi, &src, &name, qtype);
@@ -1037,65 +1097,78 @@ impl Hier {
                     }
                     name = target;
                 }
-                Truth::NoData { kind, ce, .. } => {
-                    let ao = z.apex.clone();
-                    r.push_set(self, 1, zi, &apexk, &ao, T_SOA);
-                    if z.secure {
-                        let k = key(&name);
-                        match (&z.denial, kind) {
-                            (Denial::Nsec, 0) => r.push_denial(self, zi, &k),
-                            (Denial::Nsec, 1) => r.push_denial(self, zi, &z.nsec_cover(&k)),
-                            (Denial::Nsec, _) => {
-                                let mut st = ce.clone();
-                                st.push(b"*".to_vec());
-                                r.push_denial(self, zi, &z.nsec_cover(&k));
-                                r.push_denial(self, zi, &st);
-                            }
-                            (Denial::Nsec3 { .. }, 0 | 1) => match z.n3_match(&name) {
-                                Some(o) => r.push_denial(self, zi, &o),
-                                None => {
-                                    // opt-out: closest provable encloser + cover of next closer
-                                    self.n3_ce_proof(&mut r, zi, &name);
-                                }
-                            },
-                            (Denial::Nsec3 { .. }, _) => {
-                                let cel = unkey(&ce);
-                                r.push_denial(self, zi, &z.n3_match(&cel).expect("ce nsec3"));
-                                let nc = name[name.len() - cel.len() - 1..].to_vec();
-                                r.push_denial(self, zi, &z.n3_cover(&nc));
-                                r.push_denial(self, zi, &z.n3_match(&star(&cel)).expect("wildcard nsec3"));
-                            }
-                            (Denial::None, _) => unreachable!(),
-                        }
-                    }
-                    return r;
-                }
-                Truth::NxDomain { ce, .. } => {
-                    r.rcode = 3;
-                    let ao = z.apex.clone();
-                    r.push_set(self, 1, zi, &apexk, &ao, T_SOA);
-                    if z.secure {
-                        let k = key(&name);
-                        let cel = unkey(&ce);
-                        match &z.denial {
-                            Denial::Nsec => {
-                                r.push_denial(self, zi, &z.nsec_cover(&k));
-                                r.push_denial(self, zi, &z.nsec_cover(&key(&star(&cel))));
-                            }
-                            Denial::Nsec3 { .. } => {
-                                r.push_denial(self, zi, &z.n3_match(&cel).expect("ce nsec3"));
-                                let nc = name[name.len() - cel.len() - 1..].to_vec();
-                                r.push_denial(self, zi, &z.n3_cover(&nc));
-                                r.push_denial(self, zi, &z.n3_cover(&star(&cel)));
-                            }
-                            Denial::None => unreachable!(),
-                        }
-                    }
+                t @ (Truth::NoData { .. } | Truth::NxDomain { .. }) => {
+                    self.push_negative(&mut r, &name, &t);
                     return r;
                 }
             }
         }
         r
+    }
+
+    /// SOA and denial records (and the rcode) of the negative answer `t` for `name`, as the zone's
+    /// authoritative server composes them.
+    fn push_negative(&self, r: &mut Resp, name: &Labels, t: &Truth) {
+        let zi = t.zone();
+        let z = &self.zones[zi];
+        let apexk = key(&z.apex);
+        match t.clone() {
+            Truth::NoData { kind, ce, .. } => {
+                let ao = z.apex.clone();
+                r.push_set(self, 1, zi, &apexk, &ao, T_SOA);
+                if z.secure {
+                    let k = key(name);
+                    match (&z.denial, kind) {
+                        (Denial::Nsec, 0) => r.push_denial(self, zi, &k),
+                        (Denial::Nsec, 1) => r.push_denial(self, zi, &z.nsec_cover(&k)),
+                        (Denial::Nsec, _) => {
+                            let mut st = ce.clone();
+                            st.push(b"*".to_vec());
+                            r.push_denial(self, zi, &z.nsec_cover(&k));
+                            r.push_denial(self, zi, &st);
+                        }
+                        (Denial::Nsec3 { .. }, 0 | 1) => match z.n3_match(name) {
+                            Some(o) => r.push_denial(self, zi, &o),
+                            None => {
+                                // opt-out: closest provable encloser + cover of next closer
+                                self.n3_ce_proof(r, zi, name);
+                            }
+                        },
+                        (Denial::Nsec3 { .. }, _) => {
+                            let cel = unkey(&ce);
+                            r.push_denial(self, zi, &z.n3_match(&cel).expect("ce nsec3"));
+                            let nc = name[name.len() - cel.len() - 1..].to_vec();
+                            r.push_denial(self, zi, &z.n3_cover(&nc));
+                            r.push_denial(self, zi, &z.n3_match(&star(&cel)).expect("wildcard nsec3"));
+                        }
+                        (Denial::None, _) => unreachable!(),
+                    }
+                }
+            }
+            Truth::NxDomain { ce, .. } => {
+                r.rcode = 3;
+                let ao = z.apex.clone();
+                r.push_set(self, 1, zi, &apexk, &ao, T_SOA);
+                if z.secure {
+                    let k = key(name);
+                    let cel = unkey(&ce);
+                    match &z.denial {
+                        Denial::Nsec => {
+                            r.push_denial(self, zi, &z.nsec_cover(&k));
+                            r.push_denial(self, zi, &z.nsec_cover(&key(&star(&cel))));
+                        }
+                        Denial::Nsec3 { .. } => {
+                            r.push_denial(self, zi, &z.n3_match(&cel).expect("ce nsec3"));
+                            let nc = name[name.len() - cel.len() - 1..].to_vec();
+                            r.push_denial(self, zi, &z.n3_cover(&nc));
+                            r.push_denial(self, zi, &z.n3_cover(&star(&cel)));
+                        }
+                        Denial::None => unreachable!(),
+                    }
+                }
+            }
+            _ => {}
+        }
     }
 
     fn wildcard_proof(&self, r: &mut Resp, zi: usize, name: &Labels, ce: &Labels) {
@@ -1199,11 +1272,38 @@ enum Op {
     /// wants the parent).  The forged set is covered by a chain to the trust anchor, so the property text
     /// does not decide: information only.
     DsSignedByChild,
+    // ---- the redirect dimension (main answer only; the message is composed anew from authentic, validly
+    // signed RRsets of the hierarchy; n_0 = QNAME, n_1, .. n_k are the names of the authentic CNAME / DNAME chain)
+    /// The authentic answer is cut after `keep` links; the genuine DNAME RRset of (zone, owner) follows as if
+    /// it applied to the name n_keep reached there, which is not below its owner: rel 0 = n_keep is the DNAME's
+    /// own owner, 1 = an ancestor of the owner, 2 = any other name; `synth`: with the CNAME synthesized
+    /// accordingly; then the authentic answer (data or denial proof) for the name this "redirects" to.
+    ApplyDname { keep: usize, zone: usize, owner: String, synth: bool, rel: u8 },
+    /// Link `link` is a DNAME redirection; its synthesized (unsigned) CNAME gets another target: 0 the DNAME
+    /// target without the prefix, 1 the prefix under the apex of the DNAME's zone, 2 www.zone.tld., 3 one more
+    /// label in front of the right target; cont: the message goes on with the authentic answer for that
+    /// target (otherwise with the authentic answer for the right target).
+    SynthTarget { link: usize, variant: u8, cont: bool },
+    /// The authentic answer cut after `keep` links, with the rcode and authority section of a denial for
+    /// (name, rtype): the authentic negative answer if there is one; else the SOA with the name's own NSEC /
+    /// NSEC3 (name exists) resp. with the records that would prove NXDOMAIN if the wildcard / the DNAME above
+    /// the name were not there.  same: the denial is about the name the cut chain ends at.
+    ChainCut { keep: usize, name: String, rtype: u16, same: bool },
+    /// Link `link` of the chain removed: what 0 = its (signed or synthesized) CNAME, 1 = its DNAME (the
+    /// synthesized CNAME stays), 2 = both.
+    DropLink { link: usize, what: u8 },
 }
 
 impl Op {
+    fn is_redirect(&self) -> bool {
+        matches!(self, Op::ApplyDname { .. } | Op::SynthTarget { .. } | Op::ChainCut { .. } | Op::DropLink { .. })
+    }
     fn kind(&self) -> String {
         match self {
+            Op::ApplyDname { synth, rel, .. } => format!("dname-applied-to-{}{}", ["its-own-owner", "an-ancestor-of-its-owner", "a-name-not-below-its-owner"][*rel as usize], if *synth { "-with-synthesized-cname" } else { "" }),
+            Op::SynthTarget { cont, .. } => format!("synthesized-cname-with-wrong-target{}", if *cont { "-and-answer-for-it" } else { "" }),
+            Op::ChainCut { same, .. } => format!("chain-cut-with-denial-for-{}", if *same { "the-link-name" } else { "another-name" }),
+            Op::DropLink { what, .. } => format!("drop-chain-link-{}", ["cname", "dname", "dname-and-cname"][*what as usize]),
             Op::DropSet { with_sigs, .. } => if *with_sigs { "drop-rrset-and-rrsigs".into() } else { "drop-rrset".into() },
             Op::Dup { .. } => "duplicate-rr".into(),
             Op::Ttl { mode, .. } => format!("ttl-{}", ["raised", "zero", "max"][*mode as usize]),
@@ -2525,6 +2625,22 @@ fn apply_op(h: &Hier, op: &Op, r: &mut Resp, main: bool) {
                 }
             }
         }
+        Op::ApplyDname { .. } | Op::SynthTarget { .. } | Op::ChainCut { .. } | Op::DropLink { .. } => {
+            if !main {
+                return;
+            }
+            if let Some(mut d) = compose_redirect(h, op, &r.qname, r.qtype) {
+                // fresh ids: positions of the replaced message no longer exist
+                for s in 0..3 {
+                    for e in d.sec[s].iter_mut() {
+                        e.id += 3000;
+                    }
+                }
+                r.rcode = d.rcode;
+                r.sec = d.sec;
+                r.next_id = d.next_id + 3000;
+            }
+        }
         Op::OutOfBailiwick | Op::DsSignedByChild => {
             let Some(k) = h.zones[2].key.clone() else { return };
             for e in r.sec[0].iter_mut() {
@@ -2536,6 +2652,188 @@ fn apply_op(h: &Hier, op: &Op, r: &mut Resp, main: bool) {
             resign_section(h, r, 0, 1, &k);
         }
     }
+}
+
+impl Resp {
+    /// Append the records of `other` that are not there yet (same section); the rcode becomes `other`'s.
+    fn append(&mut self, other: &Resp) {
+        for s in 0..3 {
+            for e in &other.sec[s] {
+                if self.sec[s].iter().any(|x| x.rr == e.rr) {
+                    continue;
+                }
+                self.push(s, e.rr.clone(), e.src.clone());
+            }
+        }
+        self.rcode = other.rcode;
+    }
+}
+
+/// The message of a redirect-dimension fault for the question (qname, qtype), composed from the authentic
+/// data of the hierarchy; None if the fault has no position in this question's chain.
+fn compose_redirect(h: &Hier, op: &Op, qname: &Labels, qtype: u16) -> Option<Resp> {
+    let ch = h.chain(qname, qtype);
+    let unsigned_cname = |r: &mut Resp, zi: usize, owner: &Labels, ttl: u32, target: &Labels| {
+        r.push(0, Rr { owner: owner.clone(), rtype: T_CNAME, class: 1, ttl, rdata: wire(target) }, (zi, key(owner), T_CNAME));
+    };
+    match op {
+        Op::ApplyDname { keep, zone, owner, synth, .. } => {
+            let (n, _) = ch.get(*keep)?;
+            let ok = key(&unshow(owner));
+            let (ttl, rds) = h.zones.get(*zone)?.sets.get(&(ok.clone(), T_DNAME))?;
+            let o = unkey(&ok);
+            let mut mapped: Labels = if n.len() > o.len() { n[..n.len() - o.len()].to_vec() } else { vec![] };
+            mapped.extend(name_in_rdata(&rds[0], 0));
+            let mut r = h.answer_n(qname, qtype, *keep);
+            r.push_set(h, 0, *zone, &ok, &o, T_DNAME);
+            if *synth {
+                unsigned_cname(&mut r, *zone, n, *ttl, &mapped);
+            }
+            r.append(&h.answer(&mapped, qtype));
+            Some(r)
+        }
+        Op::SynthTarget { link, variant, cont } => {
+            let (n, t) = ch.get(*link)?;
+            let Truth::Dname { zone, owner, target } = t else { return None };
+            let z = &h.zones[*zone];
+            let (ttl, rds) = z.sets.get(&(owner.clone(), T_DNAME))?;
+            let o = unkey(owner);
+            let prefix: Labels = n[..n.len() - o.len()].to_vec();
+            let wrong: Labels = match variant {
+                0 => name_in_rdata(&rds[0], 0),
+                1 => prefix.iter().cloned().chain(z.apex.iter().cloned()).collect(),
+                2 => nm("www.zone.tld."),
+                _ => std::iter::once(b"x".to_vec()).chain(target.iter().cloned()).collect(),
+            };
+            if key(&wrong) == key(target) {
+                return None;
+            }
+            let mut r = h.answer_n(qname, qtype, *link);
+            r.push_set(h, 0, *zone, owner, &o, T_DNAME);
+            unsigned_cname(&mut r, *zone, n, *ttl, &wrong);
+            r.append(&h.answer(if *cont { &wrong } else { target }, qtype));
+            Some(r)
+        }
+        Op::ChainCut { keep, name, rtype, .. } => {
+            if *keep >= ch.len() {
+                return None;
+            }
+            let x = unshow(name);
+            let xk = key(&x);
+            let t = h.classify(&x, *rtype);
+            let zi = t.zone();
+            let z = &h.zones[zi];
+            let claim = match &t {
+                Truth::NoData { .. } | Truth::NxDomain { .. } => t.clone(),
+                Truth::Pos { wildcard: false, .. } | Truth::Cname { wildcard: false, .. } => Truth::NoData { zone: zi, kind: 0, ce: xk.clone() },
+                Truth::Pos { ce, .. } | Truth::Cname { ce, .. } => Truth::NxDomain { zone: zi, ce: ce.clone() },
+                Truth::Dname { owner, .. } => Truth::NxDomain { zone: zi, ce: owner.clone() },
+            };
+            if z.secure && matches!(z.denial, Denial::Nsec) && matches!(claim, Truth::NoData { kind: 0, .. }) && !z.has(&xk, T_NSEC) {
+                return None;
+            }
+            let mut d = Resp::new(&x, *rtype);
+            h.push_negative(&mut d, &x, &claim);
+            let mut r = h.answer_n(qname, qtype, *keep);
+            d.sec[0].clear();
+            r.append(&d);
+            Some(r)
+        }
+        Op::DropLink { link, what } => {
+            let (n, t) = ch.get(*link)?;
+            let mut r = h.answer(qname, qtype);
+            let nk = key(n);
+            let drop_cname = |r: &mut Resp| r.sec[0].retain(|e| !(key(&e.rr.owner) == nk && (e.rr.rtype == T_CNAME || (e.rr.rtype == T_RRSIG && e.src.2 == T_CNAME))));
+            match t {
+                Truth::Cname { .. } if *what == 0 => drop_cname(&mut r),
+                Truth::Dname { owner, .. } => {
+                    if *what != 1 {
+                        drop_cname(&mut r);
+                    }
+                    if *what != 0 {
+                        r.sec[0].retain(|e| !(e.src.1 == *owner && e.src.2 == T_DNAME));
+                    }
+                }
+                _ => return None,
+            }
+            Some(r)
+        }
+        _ => None,
+    }
+}
+
+/// The redirect-dimension faults for one question: every fault kind at every link of the authentic chain,
+/// with every DNAME of the hierarchy / every name of the chain as material; faults that compose the same
+/// octets (or the authentic answer itself) are listed once.
+fn redirect_ops(h: &Hier, q: &Query) -> Vec<Op> {
+    let ch = h.chain(&q.name, q.qtype);
+    let mut seen: BTreeSet<Vec<u8>> = BTreeSet::new();
+    seen.insert(h.answer(&q.name, q.qtype).encode());
+    let mut out = vec![];
+    let mut offer = |op: Op| {
+        if let Some(r) = compose_redirect(h, &op, &q.name, q.qtype) {
+            if seen.insert(r.encode()) {
+                out.push(op);
+            }
+        }
+    };
+    let mut dnames: Vec<(usize, Labels)> = vec![];
+    for (zi, z) in h.zones.iter().enumerate() {
+        for (k, t) in z.sets.keys() {
+            if *t == T_DNAME {
+                dnames.push((zi, k.clone()));
+            }
+        }
+    }
+    for (keep, (n, _)) in ch.iter().enumerate() {
+        let nk = key(n);
+        for (zi, k) in &dnames {
+            let rel = if nk == *k {
+                0
+            } else if is_desc(k, &nk) {
+                1
+            } else if is_desc(&nk, k) {
+                continue; // the DNAME does apply
+            } else {
+                2
+            };
+            for synth in [false, true] {
+                offer(Op::ApplyDname { keep, zone: *zi, owner: show(&unkey(k)), synth, rel });
+            }
+        }
+    }
+    let mut names: Vec<Labels> = vec![];
+    for (link, (n, t)) in ch.iter().enumerate() {
+        names.push(n.clone());
+        if let Truth::Dname { zone, owner, .. } = t {
+            names.push(unkey(owner));
+            if let Some((_, rds)) = h.zones[*zone].sets.get(&(owner.clone(), T_DNAME)) {
+                names.push(name_in_rdata(&rds[0], 0));
+            }
+            for variant in 0..4 {
+                for cont in [true, false] {
+                    offer(Op::SynthTarget { link, variant, cont });
+                }
+            }
+        }
+        for what in 0..3 {
+            offer(Op::DropLink { link, what });
+        }
+    }
+    let mut uniq: Vec<Labels> = vec![];
+    for n in names {
+        if !uniq.contains(&n) {
+            uniq.push(n);
+        }
+    }
+    for keep in 0..ch.len() {
+        for x in &uniq {
+            for rtype in [q.qtype, T_PTR, T_CNAME] {
+                offer(Op::ChainCut { keep, name: show(x), rtype, same: key(x) == key(&ch[keep].0) });
+            }
+        }
+    }
+    out
 }
 
 /// Re-sign the RRset formed by the non-RRSIG records among `ids` (section s) and store the
@@ -2988,8 +3286,17 @@ fn cases_for(hiers: &[Arc<Hier>], hi: usize, q: &Query, mode: u8, pairs: u8, cou
             }
         }
     }
+    // the redirect dimension (hierarchies that carry its records)
+    let mut n_redirect = 0u64;
+    if h.redirect && (mode == 0 || mode == 4) {
+        for op in redirect_ops(h, q) {
+            singles.push((Fault { target: Target::Main, op }, false));
+            n_redirect += 1;
+        }
+    }
     {
         let mut g = counts.lock().unwrap();
+        *g.entry("cases|redirect-dimension".into()).or_insert(0) += n_redirect;
         *g.entry("positions|targets".into()).or_insert(0) += targets.len() as u64;
         *g.entry("positions|rrsets".into()).or_insert(0) += targets.iter().map(|t| sets_of(&t.1).len() as u64).sum::<u64>();
         *g.entry("positions|records".into()).or_insert(0) += targets.iter().map(|t| t.1.sec.iter().map(|s| s.len() as u64).sum::<u64>()).sum::<u64>();
@@ -3002,7 +3309,7 @@ fn cases_for(hiers: &[Arc<Hier>], hi: usize, q: &Query, mode: u8, pairs: u8, cou
     let menu: Vec<Fault> = match pairs {
         0 => vec![],
         1 => singles.iter().filter(|x| x.1).map(|x| x.0.clone()).collect(),
-        _ => singles.iter().filter(|x| x.1 || !matches!(x.0.op, Op::ReplaceBy { .. })).map(|x| x.0.clone()).collect(),
+        _ => singles.iter().filter(|x| x.1 || !(matches!(x.0.op, Op::ReplaceBy { .. }) || x.0.op.is_redirect())).map(|x| x.0.clone()).collect(),
     };
     *counts.lock().unwrap().entry("cases|pair".into()).or_insert(0) += (menu.len() * menu.len().saturating_sub(1) / 2) as u64;
     (out, menu)
@@ -4599,7 +4906,7 @@ fn main() {
     let ctx = Ctx::new("C14", "fault_enumeration");
     let now = std::time::SystemTime::now().duration_since(std::time::UNIX_EPOCH).unwrap().as_secs() as u32;
     let quick = ctx.quick();
-    let sp = |name, kind, nsec3, opt_out, decoy, extra| Spec { name, kind, nsec3, opt_out, decoy, extra, zone_denial: None, records_changed: false, zsk: None, root_ksk: None };
+    let sp = |name, kind, nsec3, opt_out, decoy, extra| Spec { name, kind, nsec3, opt_out, decoy, extra, zone_denial: None, records_changed: false, zsk: None, root_ksk: None, redirect: false };
     let specs: Vec<Spec> = vec![
         sp("S1-nsec-secure", Kind::Secure, false, false, false, false),
         sp("S2-nsec3-secure", Kind::Secure, true, false, false, false),
@@ -4613,7 +4920,7 @@ fn main() {
     let sx = specs.len() - 1;
     // states of the SAME hierarchy after zone.tld. has been re-signed (keys of root, tld. and the DS constant)
     let (zk, zrd) = gen_key("zone.tld.");
-    let hs = |name, zone_denial, records_changed, zsk| Spec { name, kind: Kind::Secure, nsec3: true, opt_out: false, decoy: false, extra: false, zone_denial, records_changed, zsk, root_ksk: None };
+    let hs = |name, zone_denial, records_changed, zsk| Spec { name, kind: Kind::Secure, nsec3: true, opt_out: false, decoy: false, extra: false, zone_denial, records_changed, zsk, root_ksk: None, redirect: false };
     let n3 = |salt: u8, iters: u16| Some(Denial::Nsec3 { salt: vec![salt], iters, opt_out: false });
     let mut specs = specs;
     let hist0 = specs.len();
@@ -4641,14 +4948,21 @@ fn main() {
         ("W4-nsec-secure-clock-12h-after-2^31", 0x8000_0000u32 + 43_200),
     ];
     for (n, _) in wrap_clocks {
-        specs.push(Spec { name: n, kind: Kind::Secure, nsec3: false, opt_out: false, decoy: false, extra: false, zone_denial: None, records_changed: false, zsk: None, root_ksk: None });
+        specs.push(Spec { name: n, kind: Kind::Secure, nsec3: false, opt_out: false, decoy: false, extra: false, zone_denial: None, records_changed: false, zsk: None, root_ksk: None, redirect: false });
+    }
+    // the redirect dimension: the S1 / S2 / S3 hierarchies with DNAMEs (at owners with and without other data;
+    // targets in the same zone, the parent zone and the secure resp. insecure child zone), DNAME->DNAME,
+    // CNAME->DNAME, DNAME->CNAME and CNAME chains that end in data, NODATA and NXDOMAIN
+    let redir0 = specs.len();
+    for (n, kind, nsec3) in [("D1-nsec-secure-redirects", Kind::Secure, false), ("D2-nsec3-secure-redirects", Kind::Secure, true), ("D3-nsec-insecure-child-redirects", Kind::InsecureChild, false)] {
+        specs.push(Spec { name: n, kind, nsec3, opt_out: false, decoy: false, extra: false, zone_denial: None, records_changed: false, zsk: None, root_ksk: None, redirect: true });
     }
     // histories of trust-anchor configuration: a second key K2 of the root.  For S1 it is a configured key
     // that is not (yet) published; the hierarchy R2 (thorough tier) publishes it and signs the root's
     // DNSKEY RRset with K2 only
     let (root_k2, root_k2_rd) = gen_key(".");
     let r2 = if !quick || ctx.replay.is_some() {
-        specs.push(Spec { name: "R2-nsec-secure-root-dnskey-rrset-signed-by-second-key-only", kind: Kind::Secure, nsec3: false, opt_out: false, decoy: false, extra: false, zone_denial: None, records_changed: false, zsk: None, root_ksk: Some((root_k2, root_k2_rd.clone())) });
+        specs.push(Spec { name: "R2-nsec-secure-root-dnskey-rrset-signed-by-second-key-only", kind: Kind::Secure, nsec3: false, opt_out: false, decoy: false, extra: false, zone_denial: None, records_changed: false, zsk: None, root_ksk: Some((root_k2, root_k2_rd.clone())), redirect: false });
         Some(specs.len() - 1)
     } else {
         None
@@ -4817,6 +5131,61 @@ fn main() {
             plan.push((hi, qq, if quick { 2 } else { 0 }, 0));
         }
     }
+    // the redirect dimension.  Queries at the owner of a DNAME (its other data, the DNAME itself, absent types),
+    // strictly below it (one and two labels; data, NODATA, NXDOMAIN, a further CNAME / DNAME at the target),
+    // at siblings / ancestors / a name that only ends with the same octets, through every DNAME target kind,
+    // and CNAME chains of length 1..3 ending in data, NODATA and NXDOMAIN.  The bool marks the queries that
+    // also get the general single-fault menu in the quick tier (thorough: all of them).
+    let redirect_queries: Vec<(Query, bool)> = vec![
+        (q("dn.zone.tld.", T_A), true),
+        (q("dn.zone.tld.", T_DNAME), false),
+        (q("dn.zone.tld.", T_TXT), true),
+        (q("dn.zone.tld.", T_CNAME), false),
+        (q("www.dn.zone.tld.", T_A), true),
+        (q("www.dn.zone.tld.", T_TXT), false),
+        (q("www.dn.zone.tld.", T_DNAME), false),
+        (q("nx.dn.zone.tld.", T_A), true),
+        (q("y.www.dn.zone.tld.", T_A), false),
+        (q("cn.dn.zone.tld.", T_A), false),
+        (q("rt.zone.tld.", T_A), false),
+        (q("dm.zone.tld.", T_A), false),
+        (q("xdn.zone.tld.", T_A), false),
+        (q("zone.tld.", T_A), false),
+        (q("www.zone.tld.", T_A), false),
+        (q("d2.zone.tld.", T_DNAME), false),
+        (q("d2.zone.tld.", T_A), false),
+        (q("www.d2.zone.tld.", T_A), false),
+        (q("nx.d2.zone.tld.", T_A), false),
+        (q("up.zone.tld.", T_TXT), false),
+        (q("up.zone.tld.", T_A), false),
+        (q("www.up.zone.tld.", T_A), true),
+        (q("nx.up.zone.tld.", T_A), false),
+        (q("dz.tld.", T_TXT), false),
+        (q("dz.tld.", T_A), false),
+        (q("www.dz.tld.", T_A), false),
+        (q("nx.dz.tld.", T_A), false),
+        (q("c1.zone.tld.", T_A), false),
+        (q("c1.zone.tld.", T_TXT), false),
+        (q("c2.zone.tld.", T_TXT), true),
+        (q("c3.zone.tld.", T_TXT), false),
+        (q("cx1.zone.tld.", T_A), false),
+        (q("cx2.zone.tld.", T_A), true),
+        (q("cd.zone.tld.", T_A), true),
+        (q("cd.zone.tld.", T_TXT), false),
+        (q("co.zone.tld.", T_A), false),
+        (q("co.zone.tld.", T_TXT), false),
+        (q("x.d.zone.tld.", T_A), false),
+    ];
+    let plan_before_redirect = plan.len();
+    for k in 0..3 {
+        let hi = redir0 + k;
+        for (qq, general) in &redirect_queries {
+            // D3 (insecure child): the redirect menu only
+            let mode = if k < 2 && (*general || !quick) { 0 } else { 4 };
+            plan.push((hi, qq.clone(), mode, if quick || mode != 0 { 0 } else { 1 }));
+        }
+    }
+    let n_redirect_plans = plan.len() - plan_before_redirect;
     let counts = Mutex::new(BTreeMap::new());
     let planned: Vec<(Vec<Case>, Vec<Fault>)> = plan.par_iter().map(|(hi, qq, mode, pairs)| cases_for(&run.hiers, *hi, qq, *mode, *pairs, &counts)).collect();
     run.stats.merge_counts(&counts.lock().unwrap());
@@ -5004,7 +5373,7 @@ fn main() {
             "distinct_nontrivial": run.stats.distinct_count(),
             "rule": "one evaluation = one run of the real validator (validate_msg, or Connection for single faults) on a fresh ValidationContext with the oracle applied; non-trivial = a faulted case in which at least one message delivered to the validator (the validated answer or an upstream DS/DNSKEY response) differs in its octets from the authentic one; distinct by hash of (scenario, query, fault list)",
             "exhaustive": true,
-            "bound": if quick { "quick: scenarios S1,S2,S3,S3b x 17 queries: every single fault of the menu at every position (validate_msg and Connection); S6 (colliding key tag listed first) x 6 queries all single faults, 11 more baselines; CNAME owner x {NS,AAAA,MX,TXT} with the CNAME-to-NODATA replacement; direct wildcard-owner queries (baseline); every second name of the NXDOMAIN ring x every NSEC/NSEC3 swap; all pairs of representative faults (one per kind and position) for 6 queries; three context-reuse cases; all two-step histories of one context over 8 re-signed states of zone.tld. x 9 queries; Connection reply post-processing for request flags {AD,DO,CD} x upstream AD x upstream OPT x 60 answers (Secure/Insecure/Bogus/Indeterminate); trust anchors as DNSKEY / DS (SHA-1, SHA-256, SHA-384), right and wrong, at root / tld. / zone.tld., 17 combinations x 3 construction routes x 7 queries; Config: set_bad_signatures x number of bad RRSIGs around the limit, NSEC3 iteration limits 10 x 9 values x zones with 2 and 150 iterations, CNAME/DNAME chain limit, one-entry caches; a DNAME redirection and a 3-CNAME chain in the zone" } else { "thorough: 6 scenarios x 17 queries: every single fault at every position (validate_msg and Connection); CNAME-owner and wildcard-owner queries; full NXDOMAIN ring x every NSEC/NSEC3 swap; ALL pairs of single faults for all 17 queries of S1,S2,S3,S3b,S5 and pairs of representatives for S6; three context-reuse cases; all two-step histories of one context over 8 re-signed states of zone.tld. x 9 queries and all three-step histories over 4 denial-parameter states x 4 negative queries; Connection reply post-processing for request flags {AD,DO,CD} x upstream AD x upstream OPT x 60 answers (Secure/Insecure/Bogus/Indeterminate); trust anchors as DNSKEY / DS (SHA-1, SHA-256, SHA-384), right and wrong, at root / tld. / zone.tld., 17 combinations x 3 construction routes x 7 queries; Config: set_bad_signatures x number of bad RRSIGs around the limit, NSEC3 iteration limits 10 x 9 values x zones with 2 and 150 iterations, CNAME/DNAME chain limit, one-entry caches; a DNAME redirection and a 3-CNAME chain in the zone" },
+            "bound": if quick { "quick: scenarios S1,S2,S3,S3b x 17 queries: every single fault of the menu at every position (validate_msg and Connection); S6 (colliding key tag listed first) x 6 queries all single faults, 11 more baselines; CNAME owner x {NS,AAAA,MX,TXT} with the CNAME-to-NODATA replacement; direct wildcard-owner queries (baseline); every second name of the NXDOMAIN ring x every NSEC/NSEC3 swap; all pairs of representative faults (one per kind and position) for 6 queries; three context-reuse cases; all two-step histories of one context over 8 re-signed states of zone.tld. x 9 queries; Connection reply post-processing for request flags {AD,DO,CD} x upstream AD x upstream OPT x 60 answers (Secure/Insecure/Bogus/Indeterminate); trust anchors as DNSKEY / DS (SHA-1, SHA-256, SHA-384), right and wrong, at root / tld. / zone.tld., 17 combinations x 3 construction routes x 7 queries; Config: set_bad_signatures x number of bad RRSIGs around the limit, NSEC3 iteration limits 10 x 9 values x zones with 2 and 150 iterations, CNAME/DNAME chain limit, one-entry caches; a DNAME redirection and a 3-CNAME chain in the zone; redirect dimension: scenarios D1 (NSEC), D2 (NSEC3), D3 (insecure child) x 38 queries at / below / beside DNAME owners and through CNAME chains x the redirect fault menu at every chain link, 8 of the queries of D1, D2 also with every general single fault" } else { "thorough: 6 scenarios x 17 queries: every single fault at every position (validate_msg and Connection); CNAME-owner and wildcard-owner queries; full NXDOMAIN ring x every NSEC/NSEC3 swap; ALL pairs of single faults for all 17 queries of S1,S2,S3,S3b,S5 and pairs of representatives for S6; three context-reuse cases; all two-step histories of one context over 8 re-signed states of zone.tld. x 9 queries and all three-step histories over 4 denial-parameter states x 4 negative queries; Connection reply post-processing for request flags {AD,DO,CD} x upstream AD x upstream OPT x 60 answers (Secure/Insecure/Bogus/Indeterminate); trust anchors as DNSKEY / DS (SHA-1, SHA-256, SHA-384), right and wrong, at root / tld. / zone.tld., 17 combinations x 3 construction routes x 7 queries; Config: set_bad_signatures x number of bad RRSIGs around the limit, NSEC3 iteration limits 10 x 9 values x zones with 2 and 150 iterations, CNAME/DNAME chain limit, one-entry caches; a DNAME redirection and a 3-CNAME chain in the zone; redirect dimension: scenarios D1 (NSEC), D2 (NSEC3), D3 (insecure child) x 38 queries at / below / beside DNAME owners and through CNAME chains x the redirect fault menu at every chain link; all queries of D1, D2 also with every general single fault and all pairs of representatives" },
             "scenarios": run.hiers.iter().take(nh).chain(run.hiers.iter().skip(sx)).map(|h| h.name).collect::<Vec<_>>(),
             "query_plans": plan.len(),
             "cases": cases.len() as u64 + n_pairs.load(AO::Relaxed),
@@ -5019,6 +5388,15 @@ fn main() {
             "histories_zone_re_signed": {"states": run.hiers[hist0..s7].iter().map(|h| h.name).collect::<Vec<_>>(), "queries": hq.len(), "two_step": n_hist2, "three_step": histories.len() - n_hist2,
                 "rule": "every ordered pair (state, query) x (state', query') in which the key that signs state' is in the DNSKEY RRset of state (a validated DNSKEY RRset may be kept for its TTL); thorough adds all three-step histories over the four denial-parameter states and four negative queries"},
             "trust_anchor_configuration_histories": ta_hist_json,
+            "redirect_dimension": {
+                "scenarios": run.hiers[redir0..redir0 + 3].iter().map(|h| h.name).collect::<Vec<_>>(),
+                "queries": redirect_queries.len(),
+                "query_plans": n_redirect_plans,
+                "zone_content": "zone.tld.: dn (A + DNAME rt.zone.tld.), rt (TXT), www.rt (A), cn.rt (CNAME www), d2 (DNAME dn.zone.tld.), up (TXT + DNAME tld.), cd (CNAME www.dn), co (CNAME dn), cx1 (CNAME nx), cx2 (CNAME cx1), besides d (DNAME w), c1..c3, cn, ext; tld.: dz (TXT + DNAME zone.tld.)",
+                "faults": "per question, at every link n_0..n_k of the authentic CNAME/DNAME chain: (1) every DNAME RRset of the hierarchy applied to n_i although n_i is its own owner / an ancestor of it / unrelated, without and with the matching synthesized CNAME, continued by the authentic answer or denial for the name it maps to; (2) every DNAME link's synthesized CNAME with 4 wrong targets, continued with the answer for the wrong or the right target; (3) the chain cut after i links with the denial (authentic, or own NSEC/NSEC3, or would-be NXDOMAIN records below a DNAME / wildcard) of every chain name, DNAME owner and DNAME target for QTYPE / PTR / CNAME; (4) every link dropped (CNAME, DNAME, both); messages with identical octets listed once; the general single-fault menu on top for the marked queries (quick) / all queries (thorough)",
+                "oracle": "as everywhere in this check: unmodified => Secure (Insecure if the chain enters the insecure child); Secure => every RRset authentic with a currently valid RRSIG (an unsigned CNAME only if it is exactly the RFC 6672 synthesis of an authentic DNAME present in the section), SNAME obtained by following CNAMEs and DNAMEs of strict ancestors only, and the answer / NODATA / NXDOMAIN claim about SNAME true in the zone model with a complete NSEC/NSEC3 proof (independent checker)",
+                "not_covered": "QTYPE=CNAME below a DNAME owner (RFC 6672 leaves open whether the chase continues), DNAME at a wildcard / at a zone apex, YXDOMAIN overflow",
+            },
             "connection_flag_product": {"answers": flag_cases.len(), "runs": flag_runs.len(), "rule": "request flags {AD,DO,CD} x upstream AD x upstream OPT record x answers that are Secure (also with TTLs to be clamped) / Insecure / Bogus / Indeterminate"},
             "samples": run.stats.samples(),
         }),
